@@ -207,8 +207,15 @@ def corr_system(ctx, nrng):
             c = a                  # same sizes, different diff_order: must NOT be re-used
         lr, lc = int(nrng.choice([1, 2, 3, 4, 8])), int(nrng.choice([1, 2, 3, 4, 8]))
         salt = int(nrng.integers(0, 2 ** 31))
-        W = nrng.integers(0, 4, (M, N)).astype(float)
+        wmode = k % 4          # 0,1: random integer weights; 2: uniform 2 or 3; 3: uniform 1
+        if wmode == 2:
+            W = np.full((M, N), float(nrng.choice([2, 3])))
+        elif wmode == 3:
+            W = np.ones((M, N))
+        else:
+            W = nrng.integers(0, 4, (M, N)).astype(float)
         Y = nrng.integers(-5, 6, (M, N)).astype(float)
+        extra = nrng.integers(-4, 5, a * c).astype(float) if (k // 4) % 2 else None
         log = []
         try:
             with patched_eigen(salt, log), warnings.catch_warnings():
@@ -217,7 +224,7 @@ def corr_system(ctx, nrng):
                 pen = as_int(ws.penalty)
                 lens = (len(ws.penalty_rows), len(ws.penalty_columns))
                 nb = tuple(int(v) for v in ws._num_bases)
-                out = as_int(ws.solve(Y.copy(), W.copy()))
+                out = as_int(ws.solve(Y.copy(), W.copy(), rhs_extra=None if extra is None else extra.copy()))
                 ws._calc_dof(W.copy())
                 lr2, lc2 = lr * int(2 ** nrng.integers(0, 4)), lc * int(2 ** nrng.integers(0, 4))
                 ws.update_penalty((lr2, lc2))
@@ -239,12 +246,12 @@ def corr_system(ctx, nrng):
         vr, Ur = fake_table(salt, M, dr)
         vc, Uc = fake_table(salt, N, dc)
         vr, Ur, vc, Uc = vr[:a], Ur[:, :a], vc[:c], Uc[:, :c]
-        ctx.case(('sys', M, N, dr, dc, a, c, lr, lc, salt), nontrivial=(a * c > 1 and M * N > a * c or a * c > 2),
-                 kind=f'system:d=({dr},{dc})')
+        ctx.case(('sys', M, N, dr, dc, a, c, lr, lc, salt, wmode, extra is None), nontrivial=(a * c > 1 and M * N > a * c or a * c > 2),
+                 kind=f'system:weights={["random", "random", "uniform2or3", "uniform1"][wmode]}:rhs_extra={extra is not None}')
         lits.append(f'({M}%nat, {N}%nat, {a}%nat, {c}%nat, ({dr}, {dc}, {lr}, {lc}), {zlist2(rows(Ur))}, {zlist2(rows(Uc))}, '
                     f'{zlist(as_int(vr))}, {zlist(as_int(vc))}, {zlist2(rows(W))}, {zlist2(rows(Y))}, {zlist(coef)}, '
                     f'({zlist(pen)}, {zlist2(rows(lhs))}, {zlist(rhs)}, {zlist2(rows(out))}, {zlist2(rows(dlhs))}, {zlist2(rows(drhs))}), '
-                    f'({lr2}, {lc2}, {zlist(pen2)}))')
+                    f'({lr2}, {lc2}, {zlist(pen2)}), {zlist(as_int(extra) if extra is not None else [0] * (a * c))})')
         if k == 3:
             ctx.sample({'kind': 'system-case', 'shape': (M, N), 'diff_order': (dr, dc), 'num_eigens': (a, c), 'lam': (lr, lc)})
     ctx.traces += len(lits)
@@ -252,8 +259,8 @@ def corr_system(ctx, nrng):
 Definition ok (cs : nat * nat * nat * nat * (Z * Z * Z * Z) * list (list Z) * list (list Z) * list Z * list Z
                     * list (list Z) * list (list Z) * list Z
                     * (list Z * list (list Z) * list Z * list (list Z) * list (list Z) * list (list Z))
-                    * (Z * Z * list Z)) : bool :=
-  let '(M, N, a, c, prm, Ur, Uc, vr, vc, W, Y, coef, exp, upd) := cs in
+                    * (Z * Z * list Z) * list Z) : bool :=
+  let '(M, N, a, c, prm, Ur, Uc, vr, vc, W, Y, coef, exp, upd, extra) := cs in
   let '(lr2, lc2, epen2) := upd in
   let '(dr, dc, lr, lc) := prm in
   let '(epen, elhs, erhs, eout, edlhs, edrhs) := exp in
@@ -265,7 +272,7 @@ Definition ok (cs : nat * nat * nat * nat * (Z * Z * Z * Z) * list (list Z) * li
   (fst (penalty_lens cf az cz) =? az * cz) && (snd (penalty_lens cf az cz) =? az * cz)
   && zl_eqb (tab1 (a * c) pen) epen
   && zll_eqb (tab2 (a * c) (a * c) lhs) elhs
-  && zl_eqb (tab1 (a * c) (rhs_model ZO M N cz (of_rows Ur) (of_rows W) (of_rows Y) (of_rows Uc))) erhs
+  && zl_eqb (tab1 (a * c) (fun k => rhs_model ZO M N cz (of_rows Ur) (of_rows W) (of_rows Y) (of_rows Uc) k + of_list extra k)) erhs
   && zll_eqb (tab2 M N (output_model ZO a c (of_rows Ur) (of_rows Uc) (of_list coef))) eout
   && zll_eqb (tab2 (a * c) (a * c) lhs) edlhs
   && zll_eqb (tab2 (a * c) (a * c) F) edrhs
@@ -442,14 +449,20 @@ def dense_reference(y, w, lam, d, k=None):
     Wd = np.diag(w.ravel())
     if k is None:
         A = Wd + P
+        cond = np.linalg.cond(A)
+        if not np.isfinite(cond) or cond > 1e11:
+            return None, np.inf, None
         v = np.linalg.solve(A, w.ravel() * y.ravel())
-        return v.reshape(M, N), np.linalg.cond(A), None
+        return v.reshape(M, N), cond, None
     Ur = np.linalg.eigh(Pr)[1][:, :k[0]]
     Uc = np.linalg.eigh(Pc)[1][:, :k[1]]
     U = np.kron(Ur, Uc)
     A = U.T @ (Wd + P) @ U
+    cond = np.linalg.cond(A)
+    if not np.isfinite(cond) or cond > 1e11:
+        return None, np.inf, (U, A)
     c = np.linalg.solve(A, U.T @ (w.ravel() * y.ravel()))
-    return (U @ c).reshape(M, N), np.linalg.cond(A), (U, A)
+    return (U @ c).reshape(M, N), cond, (U, A)
 
 
 def gen_surface(nrng, M, N):
@@ -459,19 +472,26 @@ def gen_surface(nrng, M, N):
 
 
 def weight_kinds(nrng, M, N, kind):
-    if kind == 'uniform':
-        return np.ones((M, N))
+    if kind.startswith('const'):
+        return np.full((M, N), float(kind[5:]))
+    if kind == 'nearconst':
+        return 1.0 + 1e-12 * nrng.choice([-1.0, 1.0], (M, N))
     if kind == 'random':
         return nrng.uniform(0.05, 1.0, (M, N))
-    if kind == 'binaryish':
+    if kind == 'twolevel':
         return np.where(nrng.random((M, N)) < 0.5, 0.01, 0.99)
+    if kind == 'zerorowcol':      # one row and one column carry no weight at all
+        w = nrng.uniform(0.3, 1.0, (M, N))
+        w[int(nrng.integers(0, M)), :] = 0.0
+        w[:, int(nrng.integers(0, N))] = 0.0
+        return w
     w = nrng.uniform(0.2, 1.0, (M, N))     # 'rowcol': structure that distinguishes rows from columns
     w[0, :] = 0.03
     w[:, -1] = 0.9
     return w
 
 
-WKINDS = ['uniform', 'random', 'binaryish', 'rowcol']
+WKINDS = ['const0.01', 'random', 'const0.25', 'twolevel', 'const1', 'zerorowcol', 'const7', 'nearconst', 'rowcol']
 
 
 def whit_case(nrng, k):
@@ -506,7 +526,7 @@ def oracle_whittaker(ctx, nrng, budget):
     for k in range(n1):
         M, N, d, lam = whit_case(nrng, k)
         y = gen_surface(nrng, M, N)
-        wk = WKINDS[(k // 4) % 4]
+        wk = WKINDS[k % len(WKINDS)]
         w = weight_kinds(nrng, M, N, wk)
         method = WHIT_EIGEN[k % len(WHIT_EIGEN)]
         b = Baseline2D(np.arange(M, dtype=float), np.arange(N, dtype=float))
@@ -514,6 +534,8 @@ def oracle_whittaker(ctx, nrng, budget):
                 'weights': w.tolist(), 'y': y.tolist()}
         scale = np.abs(y).max()
         ref, cond, _ = dense_reference(y, w, lam, d)
+        if not np.isfinite(cond) or cond > 1e11:
+            continue      # numerically singular full system: nothing can be compared
         tol = (1e4 * eps * cond + 1e-9) * scale
         try:
             direct, _ = call_method(b, method, y, lam, d, w, None)
@@ -525,7 +547,7 @@ def oracle_whittaker(ctx, nrng, budget):
         except Exception as exc:  # noqa
             full = None
             ctx.fail(f'whittaker:{method}:raises', f'{method} (max_iter=0, num_eigens=({M},{N})) raised {type(exc).__name__}: {exc} on a {M}x{N} grid, diff_order={d}', case)
-        ctx.case(('full', method, M, N, d, lam, wk, y.tobytes()), nontrivial=(d[0] != d[1] or M != N), kind=f'oracle:full-vs-direct:{method}')
+        ctx.case(('full', method, M, N, d, lam, wk, y.tobytes()), nontrivial=(d[0] != d[1] or M != N), kind=f'oracle:full-vs-direct:{method}:{wk.rstrip("0123456789.")}')
         if direct is not None and full is not None:
             e_full = np.abs(full - direct).max()
             worst = max(worst, e_full / tol)
@@ -553,6 +575,8 @@ def oracle_whittaker(ctx, nrng, budget):
             continue
         gref, gcond, (U, A) = dense_reference(y, w, lam, d, (kr, kc))
         gtol = (1e4 * eps * gcond + 1e-8) * scale
+        if not np.isfinite(gcond) or gcond > 1e11:
+            continue
         ctx.case(('trunc', method, M, N, d, lam, kr, kc, wk, y.tobytes()), nontrivial=(kr < M or kc < N), kind=f'oracle:truncated-vs-galerkin:{method}')
         if True:
             e_tr = np.abs(trunc - gref).max()
@@ -593,7 +617,7 @@ def oracle_pspline(ctx, nrng, budget):
         nk = (int(nrng.integers(3, 8)), int(nrng.integers(3, 8)))
         x = np.sort(nrng.uniform(-1, 1, M)) if k % 2 else np.linspace(-1, 1, M)
         z = np.sort(nrng.uniform(0, 5, N)) if k % 3 == 0 else np.linspace(0, 5, N)
-        w = weight_kinds(nrng, M, N, WKINDS[k % 4])
+        w = weight_kinds(nrng, M, N, WKINDS[k % len(WKINDS)])
         case = {'kind': 'pspline', 'x': x.tolist(), 'z': z.tolist(), 'num_knots': list(nk), 'spline_degree': list(deg), 'weights': w.tolist()}
         try:
             sb = su.SplineBasis2D(x, z, num_knots=nk, spline_degree=deg)
@@ -623,9 +647,12 @@ def oracle_pspline(ctx, nrng, budget):
         a, c = Br.shape[1], Bc.shape[1]
         P = lam[0] * np.kron(dpen(a, d[0]), np.eye(c)) + lam[1] * np.kron(np.eye(a), dpen(c, d[1]))
         A = ref + P
+        pcond = np.linalg.cond(A)
+        if not np.isfinite(pcond) or pcond > 1e11:
+            continue
         coef = np.linalg.solve(A, B.T @ (w.ravel() * y.ravel()))
         pref = (B @ coef).reshape(M, N)
-        tol = (1e4 * eps * np.linalg.cond(A) + 1e-9) * np.abs(y).max()
+        tol = (1e4 * eps * pcond + 1e-9) * np.abs(y).max()
         e = np.abs(got - pref).max()
         ctx.case(('ps-solve', M, N, deg, nk, d, lam, y.tobytes()), nontrivial=True, kind='oracle:pspline-solve')
         if not e <= tol:
@@ -713,9 +740,9 @@ def oracle_axes(ctx, nrng, budget):
 def run(ctx):
     ctx.rule = ('cases: exact-integer inputs (bases/weights in -3..3, all shapes M,N,a,c in 1..3 plus random up to 6x6x4x4) for '
                 '_face_splitting/_make_btwb on both hosts; WhittakerSystem2D built with integer eigen stand-ins (lam in {1,2,3,4,8}, '
-                'diff_order 1-3, num_eigens 1..size, square re-use branch forced every 10th case); individual_axes with an integer '
+                'diff_order 1-3, num_eigens 1..size, square re-use branch forced every 10th case, weights random / uniform 2 or 3 / uniform 1, rhs_extra None and not None); individual_axes with an integer '
                 'position-sensitive stand-in method on sorted/permuted integer axes; float oracle on 2-D Whittaker methods with '
-                'max_iter=0 (sides from diff_order+2, per-axis lam/diff_order/num_eigens, 4 weight patterns), P-spline B\'WB and solve, '
+                'max_iter=0 (sides from diff_order+2, per-axis lam/diff_order/num_eigens, 9 weight patterns: constant 0.01/0.25/1/7, near-constant 1+-1e-12, random, two-level, zero row+column, row/column structured), P-spline B\'WB and solve, '
                 'individual_axes with 6 real methods; distinct = distinct canonical input; non-trivial as flagged per case kind')
     ctx.trusted += [
         'scipy.linalg.eig_banded / eigh_tridiagonal: contract (smallest eigen-pairs of D\'D, orthonormal columns, null eigenvalues ~0) '
@@ -770,6 +797,9 @@ def replay(rep):
             ke = tuple(case['num_eigens'])
             got, _ = call_method(b, method, y, lam, d, w, ke)
             ref, cond, _ = dense_reference(y, w, lam, d, ke)
+            if ref is None:
+                print('replay whittaker: reduced system numerically singular, nothing to compare')
+                return 0
             tol = (1e4 * eps * cond + 1e-8) * np.abs(y).max()
             what = 'dense Galerkin solution'
         else:
